@@ -1,11 +1,12 @@
 // C17 (single-reader data path): a read through the cache store returns exactly the source's bytes and byte count, whether the
 // range is cached, partly cached or absent, and never reads the source outside [0, size).
 // Real code: fs/cache/store.cpp included textually (ICacheStore::preadv2, try_preadv2, do_preadv2, do_refill_range,
-// try_refill_range via prefetch/do_prefetch, tryget_size, open_src_file), common/range-lock.h (RangeLock over the std::set
-// stand-ins of rt/rbtree.c), common/iovector.h + iovector.cpp (IOVector, iovector_view), common/io-alloc.h (IOAlloc callbacks).
+// try_refill_range via prefetch/do_prefetch, tryget_size, open_src_file, set_cached_size), common/range-lock.h (RangeLock; std::set
+// header code over the stand-ins of rt/c17_rbtree.c), common/iovector.h + iovector.cpp (IOVector, iovector_view),
+// common/io-alloc.h (IOAlloc callbacks), and - with -DUSE_RANGE_MODULE - fs/cache/full_file_cache/range_module.h.
 // Harness parts (see jobs.py META): Store (subclass of ICacheStore supplying the pure virtuals over a byte-array "media" and a
-// per-page present bitmap or the real RangeModule), SrcFile (IFile over a byte-array source with symbolic faults), the IOAlloc
-// handed to the store (exact-size static blocks) and stand-ins for ::malloc/::free (typed iovec arrays for IOVector::slice).
+// per-page present bitmap / the real RangeModule), SrcFile (IFile over a byte-array source with symbolic faults), the IOAlloc
+// handed to the store and stand-ins for ::malloc/::free (typed iovec array for IOVector::slice).
 #include "verif_h.h"
 #include "nolog.h"
 #include <stdlib.h>
@@ -16,7 +17,8 @@
 #include <photon/common/range-lock.h>          // m_index is inspected after each read (no range left locked)
 #undef protected
 #ifdef IOV_CAPACITY
-// the IOVector typedef (IOVectorEntity<32, 4>) is instantiated with a smaller capacity; the class template and all of its code are the real ones
+// The IOVector typedef (IOVectorEntity<32, 4> as shipped) is instantiated with a smaller capacity; the class template and all of its
+// code are the real ones.  An IOVector is accessed at symbolic positions, which costs the solver in proportion to the object's size.
 #define IOVector IOVector_as_shipped
 #include <photon/common/iovector.h>
 #undef IOVector
@@ -47,13 +49,12 @@ using namespace photon::fs;
 #define NREADS 1
 #endif
 #ifndef FAULTS
-#define FAULTS 0         // 1: source / media / hole-query / allocator faults are symbolic choices
+#define FAULTS 0         // 1: source / media / hole-query / allocator / fstat faults are symbolic choices
 #endif
 #ifndef OFFMAX
 #define OFFMAX (SRCMAX + 1)   // read offsets 0..OFFMAX (beyond end of file included)
 #endif
 #define MAXV (NIOV > 2 ? NIOV : 2)          // segments of any vector handed to source / media
-#define MAXSEG (SRCMAX > SEGMAX ? SRCMAX : SEGMAX)
 
 // ------------------------------------------------------------------------------------------------------------------
 // World state.  Byte arrays live outside the objects that hold vtable pointers (see HARNESS_GUIDE / C16).
@@ -63,22 +64,52 @@ static bool PRESENT[NPAGE];                              // page p present: medi
 static int n_fault;                                      // faults injected during the current operation
 static int n_src_reads, n_media_reads, n_media_writes, n_alloc, n_free, n_malloc, n_mfree;
 
-#ifdef EXPERIMENT
-extern "C" { void verif_probe1(bool); void verif_probe2(bool); void verif_probe3(bool); void verif_probe4(bool); void verif_probe5(bool); void verif_probe6(bool); void verif_probe7(bool); void verif_probe8(bool); void verif_probe9(bool); }
-static bool probe_pool_null(); static bool probe_vptr(); static bool probe_srcfs_null(); static bool probe_srcfile();
-#define PROBES(a,b,c) verif_probe##a(probe_pool_null()); verif_probe##b(probe_vptr()); verif_probe##c(probe_srcfs_null());
-#else
-#define PROBES(a,b,c)
-#endif
 static inline uint64_t mn(uint64_t a, uint64_t b) { return a < b ? a : b; }
 static inline uint64_t page_end(uint64_t p) { return mn(p * PAGE + PAGE, SIZE); }
 
-static inline uint64_t vec_total(const iovec* iov, int iovcnt)
+// A vector handed to source / media, flattened: total length and the address of byte `pos`.
+struct Flat { const iovec* iov; int cnt; uint64_t start[MAXV + 1]; };
+static inline void flat_init(Flat& f, const iovec* iov, int iovcnt)
 {
-    uint64_t t = 0;
-    for (int i = 0; i < MAXV; i++) { if (i >= iovcnt) break; t += iov[i].iov_len; }
-    return t;
+    f.iov = iov; f.cnt = iovcnt; uint64_t t = 0;
+    for (int i = 0; i < MAXV; i++) { f.start[i] = t; if (i < iovcnt) t += iov[i].iov_len; }
+    f.start[MAXV] = t;
 }
+static inline uint8_t* flat_at(const Flat& f, uint64_t pos)
+{
+    int s = 0;
+    for (int i = 1; i < MAXV; i++) if (i < f.cnt && pos >= f.start[i]) s = i;
+    return (uint8_t*)f.iov[s].iov_base + (pos - f.start[s]);
+}
+// Source and media move bytes to / from the buffers of the request: the caller's segments (UB_k) and the refill buffer (RB).  The
+// transfer is written per buffer object (and reports any other target) instead of through the raw pointer: the solver's points-to
+// sets for an iov_base read back from an IOVector also hold the IOVectors themselves, and a plain store through such a pointer is
+// encoded as a possible update of every one of those objects.
+extern "C" { bool __CPROVER_same_object(const void*, const void*); uint64_t __CPROVER_POINTER_OFFSET(const void*); }
+static uint8_t RB[SRCMAX];
+#define UBDEF(k) static uint8_t UB_##k[SEGMAX];
+UBDEF(0) UBDEF(1) UBDEF(2) UBDEF(3) UBDEF(4) UBDEF(5)
+static bool xfer_ok;
+#define XB(A, n) if (__CPROVER_same_object(p, A)) { uint64_t o = __CPROVER_POINTER_OFFSET(p); if (o >= n) { xfer_ok = false; return 0; } if (wr) A[o] = x; return A[o]; }
+static inline uint8_t buf_access(uint8_t* p, bool wr, uint8_t x)
+{
+    XB(RB, SRCMAX) XB(UB_0, SEGMAX)
+#if NIOV * NREADS > 1
+    XB(UB_1, SEGMAX)
+#endif
+#if NIOV * NREADS > 2
+    XB(UB_2, SEGMAX)
+#endif
+#if NIOV * NREADS > 3
+    XB(UB_3, SEGMAX)
+#endif
+#if NIOV * NREADS > 4
+    XB(UB_4, SEGMAX) XB(UB_5, SEGMAX)
+#endif
+    xfer_ok = false; return 0;
+}
+static inline void put_byte(uint8_t* p, uint8_t x) { buf_access(p, true, x); }
+static inline uint8_t get_byte(uint8_t* p) { return buf_access(p, false, 0); }
 
 // outcome of one source / media transfer of `total` bytes: `total` (complete), a shorter count, or -1
 static inline int64_t pick_outcome(uint64_t total)
@@ -90,40 +121,29 @@ static inline int64_t pick_outcome(uint64_t total)
 #endif
     return (int64_t)total;
 }
+#define XFER_PROLOGUE(what) \
+    CHECK(iovcnt >= 0 && iovcnt <= MAXV, "harness bound: a vector handed to source / media has at most MAXV segments"); \
+    ASSUME(iovcnt >= 0 && iovcnt <= MAXV); \
+    Flat f; flat_init(f, iov, iovcnt); const uint64_t total = f.start[MAXV]; \
+    CHECK(offset >= 0 && (uint64_t)offset <= SIZE && total <= SIZE - (uint64_t)offset, what); \
+    ASSUME(offset >= 0 && (uint64_t)offset <= SIZE && total <= SIZE - (uint64_t)offset); \
+    const int64_t lim = pick_outcome(total); \
+    if (lim < 0) return -1; \
+    xfer_ok = true;
 
 // ---- source file --------------------------------------------------------------------------------------------------
 NOINL static ssize_t src_read(const iovec* iov, int iovcnt, off_t offset)
 {
     n_src_reads++;
-    PROBES(4,5,6)
-#ifdef EXPERIMENT
-    verif_probe7(probe_srcfile());
-#endif
-    CHECK(iovcnt >= 0 && iovcnt <= MAXV, "harness bound: a source read has at most MAXV segments");
-    ASSUME(iovcnt >= 0 && iovcnt <= MAXV);
-    uint64_t total = vec_total(iov, iovcnt);
-    CHECK(offset >= 0 && (uint64_t)offset <= SIZE && total <= SIZE - (uint64_t)offset, "every source read lies inside [0, size)");
-    ASSUME(offset >= 0 && (uint64_t)offset <= SIZE && total <= SIZE - (uint64_t)offset);
-    int64_t lim = pick_outcome(total);
-    if (lim < 0) return -1;
-    uint64_t pos = 0;
-    for (int i = 0; i < MAXV; i++) {
-        if (i >= iovcnt) break;
-        CHECK(iov[i].iov_len <= MAXSEG, "harness bound: segment length");
-        for (uint64_t k = 0; k < MAXSEG; k++) {
-            if (k >= iov[i].iov_len) break;
-            if (pos < (uint64_t)lim) ((uint8_t*)iov[i].iov_base)[k] = SRC[offset + pos];
-            pos++;
-        }
-    }
+    XFER_PROLOGUE("every source read lies inside [0, size)")
+    for (uint64_t pos = 0; pos < SRCMAX; pos++) { if (pos >= (uint64_t)lim) break; put_byte(flat_at(f, pos), SRC[offset + pos]); }
+    CHECK(xfer_ok, "a source read targets bytes of the caller's segments or of the refill buffer only");
     return lim;
 }
+static int n_unexpected;
+#define UNEXPECTED { n_unexpected++; return -1; }
 struct SrcFile : public IFile {
-    ssize_t pread(void* buf, size_t count, off_t offset) override { iovec v{buf, count}; return src_read(&v, 1, offset); }
-    ssize_t preadv(const struct iovec* iov, int iovcnt, off_t offset) override { return src_read(iov, iovcnt, offset); }
-    ssize_t preadv_mutable(struct iovec* iov, int n, off_t off) override { return src_read(iov, n, off); }
     ssize_t preadv2(const struct iovec* iov, int n, off_t off, int) override { return src_read(iov, n, off); }
-    ssize_t preadv2_mutable(struct iovec* iov, int n, off_t off, int) override { return src_read(iov, n, off); }
     int fstat(struct stat* st) override
     {
 #if FAULTS
@@ -131,24 +151,28 @@ struct SrcFile : public IFile {
 #endif
         st->st_size = SIZE; return 0;
     }
-    // not used by the cache read path
-    ssize_t pwrite(const void*, size_t, off_t) override { return -1; }
-    ssize_t pwritev(const struct iovec*, int, off_t) override { return -1; }
-    ssize_t pwritev_mutable(struct iovec*, int, off_t) override { return -1; }
-    ssize_t pwritev2(const struct iovec*, int, off_t, int) override { return -1; }
-    ssize_t pwritev2_mutable(struct iovec*, int, off_t, int) override { return -1; }
-    int ftruncate(off_t) override { return -1; }
-    IFileSystem* filesystem() override { return nullptr; }
-    int close() override { return 0; }
-    ssize_t read(void*, size_t) override { return -1; }
-    ssize_t readv(const struct iovec*, int) override { return -1; }
-    ssize_t write(const void*, size_t) override { return -1; }
-    ssize_t writev(const struct iovec*, int) override { return -1; }
-    off_t lseek(off_t, int) override { return -1; }
-    int fsync() override { return 0; }
-    int fdatasync() override { return 0; }
-    int fchmod(mode_t) override { return 0; }
-    int fchown(uid_t, gid_t) override { return 0; }
+    // not used by the cache read path (checked: n_unexpected stays 0)
+    ssize_t pread(void*, size_t, off_t) override UNEXPECTED
+    ssize_t preadv(const struct iovec*, int, off_t) override UNEXPECTED
+    ssize_t preadv_mutable(struct iovec*, int, off_t) override UNEXPECTED
+    ssize_t preadv2_mutable(struct iovec*, int, off_t, int) override UNEXPECTED
+    ssize_t pwrite(const void*, size_t, off_t) override UNEXPECTED
+    ssize_t pwritev(const struct iovec*, int, off_t) override UNEXPECTED
+    ssize_t pwritev_mutable(struct iovec*, int, off_t) override UNEXPECTED
+    ssize_t pwritev2(const struct iovec*, int, off_t, int) override UNEXPECTED
+    ssize_t pwritev2_mutable(struct iovec*, int, off_t, int) override UNEXPECTED
+    int ftruncate(off_t) override UNEXPECTED
+    IFileSystem* filesystem() override { n_unexpected++; return nullptr; }
+    int close() override UNEXPECTED
+    ssize_t read(void*, size_t) override UNEXPECTED
+    ssize_t readv(const struct iovec*, int) override UNEXPECTED
+    ssize_t write(const void*, size_t) override UNEXPECTED
+    ssize_t writev(const struct iovec*, int) override UNEXPECTED
+    off_t lseek(off_t, int) override UNEXPECTED
+    int fsync() override UNEXPECTED
+    int fdatasync() override UNEXPECTED
+    int fchmod(mode_t) override UNEXPECTED
+    int fchown(uid_t, gid_t) override UNEXPECTED
 };
 
 // ---- what is cached -----------------------------------------------------------------------------------------------
@@ -159,6 +183,7 @@ static inline uint64_t align_dn(uint64_t x, uint64_t a) { return x / a * a; }
 static inline uint64_t align_upw(uint64_t x, uint64_t a) { return (x + a - 1) / a * a; }
 
 // the hole query of the store: outer hull of the missing pages that intersect the request, aligned to the refill unit
+// (h_hole.cpp proves the lemma "hit => covered, miss => the range covers every uncovered byte" for this function on its own)
 NOINL static std::pair<off_t, size_t> hole_query(off_t offset, size_t size)
 {
     CHECK(offset >= 0 && (uint64_t)offset + size <= SIZE, "hole query lies inside the source file (documented precondition of queryRefillRange)");
@@ -188,52 +213,30 @@ NOINL static std::pair<off_t, size_t> hole_query(off_t offset, size_t size)
 NOINL static ssize_t media_read(const iovec* iov, int iovcnt, off_t offset)
 {
     n_media_reads++;
-    CHECK(iovcnt >= 0 && iovcnt <= MAXV, "harness bound: a media read has at most MAXV segments");
-    ASSUME(iovcnt >= 0 && iovcnt <= MAXV);
-    uint64_t total = vec_total(iov, iovcnt);
-    CHECK(offset >= 0 && (uint64_t)offset <= SIZE && total <= SIZE - (uint64_t)offset, "every media read lies inside [0, size)");
-    ASSUME(offset >= 0 && (uint64_t)offset <= SIZE && total <= SIZE - (uint64_t)offset);
-    int64_t lim = pick_outcome(total);
-    if (lim < 0) return -1;
-    uint64_t pos = 0;
-    for (int i = 0; i < MAXV; i++) {
-        if (i >= iovcnt) break;
-        CHECK(iov[i].iov_len <= MAXSEG, "harness bound: segment length");
-        for (uint64_t k = 0; k < MAXSEG; k++) {
-            if (k >= iov[i].iov_len) break;
-            if (pos < (uint64_t)lim) {
-                CHECK(PRESENT[(offset + pos) / PAGE], "media is read only where it is marked present");
-                ((uint8_t*)iov[i].iov_base)[k] = MEDIA[offset + pos];
-            }
-            pos++;
-        }
+    XFER_PROLOGUE("every media read lies inside [0, size)")
+    bool marked = true;
+    for (uint64_t pos = 0; pos < SRCMAX; pos++) {
+        if (pos >= (uint64_t)lim) break;
+        if (!PRESENT[(offset + pos) / PAGE]) marked = false;
+        put_byte(flat_at(f, pos), MEDIA[offset + pos]);
     }
+    CHECK(marked, "media is read only where it is marked present");
+    CHECK(xfer_ok, "a media read targets bytes of the caller's segments or of the refill buffer only");
     return lim;
 }
 NOINL static ssize_t media_write(const iovec* iov, int iovcnt, off_t offset)
 {
     n_media_writes++;
-    CHECK(iovcnt >= 0 && iovcnt <= MAXV, "harness bound: a media write has at most MAXV segments");
-    ASSUME(iovcnt >= 0 && iovcnt <= MAXV);
-    uint64_t total = vec_total(iov, iovcnt);
-    CHECK(offset >= 0 && (uint64_t)offset <= SIZE && total <= SIZE - (uint64_t)offset, "every media write lies inside [0, size)");
-    ASSUME(offset >= 0 && (uint64_t)offset <= SIZE && total <= SIZE - (uint64_t)offset);
-    int64_t lim = pick_outcome(total);
-    if (lim < 0) return -1;
-    uint64_t pos = 0;
-    for (int i = 0; i < MAXV; i++) {
-        if (i >= iovcnt) break;
-        CHECK(iov[i].iov_len <= MAXSEG, "harness bound: segment length");
-        for (uint64_t k = 0; k < MAXSEG; k++) {
-            if (k >= iov[i].iov_len) break;
-            if (pos < (uint64_t)lim) {
-                uint8_t x = ((const uint8_t*)iov[i].iov_base)[k];
-                CHECK(x == SRC[offset + pos], "only source bytes are written to the media, at their own offset");
-                MEDIA[offset + pos] = x;
-            }
-            pos++;
-        }
+    XFER_PROLOGUE("every media write lies inside [0, size)")
+    bool genuine = true;
+    for (uint64_t pos = 0; pos < SRCMAX; pos++) {
+        if (pos >= (uint64_t)lim) break;
+        uint8_t x = get_byte(flat_at(f, pos));
+        if (x != SRC[offset + pos]) genuine = false;
+        MEDIA[offset + pos] = x;
     }
+    CHECK(genuine, "only source bytes are written to the media, each at its own offset");
+    CHECK(xfer_ok, "a media write takes its bytes from the caller's segments or the refill buffer only");
     // what became present: every page whose bytes inside the file were all written by this request
     for (int p = 0; p < NPAGE; p++)
         if ((uint64_t)p * PAGE < SIZE && (uint64_t)offset <= (uint64_t)p * PAGE && page_end(p) <= (uint64_t)offset + (uint64_t)lim) PRESENT[p] = true;
@@ -245,12 +248,12 @@ NOINL static ssize_t media_write(const iovec* iov, int iovcnt, off_t offset)
 
 struct Store : public ICacheStore {
     std::pair<off_t, size_t> queryRefillRange(off_t offset, size_t size) override { return hole_query(offset, size); }
-#ifdef MEDIA_DIRECT
-    // as FileCacheStore does: the const-iovec variants are overridden
-    ssize_t do_preadv2(const struct iovec* iov, int iovcnt, off_t offset, int) override { return media_read(iov, iovcnt, offset); }
-#else
-    // the real ICacheStore::do_preadv2 (SmartCloneIOV copy) forwards here
+#ifdef MEDIA_VIA_MUTABLE
+    // the real ICacheStore::do_preadv2 (SmartCloneIOV copy of the iovec array) forwards here
     ssize_t do_preadv2_mutable(struct iovec* iov, int iovcnt, off_t offset, int) override { return media_read(iov, iovcnt, offset); }
+#else
+    // as FileCacheStore does: the const-iovec variant is overridden
+    ssize_t do_preadv2(const struct iovec* iov, int iovcnt, off_t offset, int) override { return media_read(iov, iovcnt, offset); }
 #endif
     ssize_t do_pwritev2(const struct iovec* iov, int iovcnt, off_t offset, int) override { return media_write(iov, iovcnt, offset); }
     int set_quota(size_t) override { return -1; }
@@ -268,19 +271,11 @@ struct Store : public ICacheStore {
         return 0;
     }
     int fstat(struct stat* buf) override { buf->st_size = actual_size_; return 0; }
-    // The constructor's zero-initialisation of pool_ .. src_fs_ is compiled into one memset over the member block, which the
-    // solver models byte-wise: afterwards it no longer knows that pool_ and src_fs_ are null pointers and explores the thread-pool
-    // and open-source-file paths.  The members are therefore stored again one by one (each value is first checked to be what the
-    // constructor left); the calls in between keep the compiler from merging the stores into a memset again.
-#define RESTORE(member, value) CHECK(member == (value), "harness: member has its constructor value"); member = (value); __CPROVER_assume(true);
     void setup(IFile* src, IOAlloc* al, off_t known_size)
     {
-        RESTORE(pool_, nullptr) RESTORE(open_flags_, 0) RESTORE(src_rwfile_, nullptr) RESTORE(recycle_file_, nullptr) RESTORE(src_fs_, nullptr)
-        RESTORE(truncated_, false) RESTORE(recycled_, false) RESTORE(detached_, false) RESTORE(need_detach_, false)
-        set_src_file(src); __CPROVER_assume(true);
-        set_page_size(PAGE); set_allocator(al);
-        actual_size_ = known_size; __CPROVER_assume(true);
-        cached_size_ = known_size;
+        CHECK(pool_ == nullptr && src_fs_ == nullptr && open_flags_ == 0, "harness: no pool (inline refill), no source file system (src_file_ given), plain open flags");
+        set_src_file(src); set_page_size(PAGE); set_allocator(al);
+        actual_size_ = known_size; cached_size_ = known_size;
     }
     bool no_range_locked() { return range_lock_.m_index.empty(); }
     // rt/c17_rbtree.c: the std::set of this RangeLock holds at most one element (checked there)
@@ -288,39 +283,36 @@ struct Store : public ICacheStore {
 };
 
 // ---- memory handed to the code under test --------------------------------------------------------------------------
-// (1) the store's IOAlloc (refill buffer): separate static byte arrays of exactly the requested size, arbitrary content
 // Every block handed out ends exactly at the end of its static object (an overrun is an out-of-bounds access); the bytes in front
-// of the block are guard bytes that are checked to be unchanged afterwards.  (One object per block size - 12 objects - makes every
-// store through an iov_base a 12-way case split in the solver's symbolic execution.)
-static uint8_t RB[SRCMAX], RB_guard[SRCMAX];
-static inline uint8_t* refill_block(int n) { return RB + (SRCMAX - n); }
+// of the block are guard bytes that are checked to be unchanged afterwards.  (One object per block size makes every store
+// through an iov_base a many-way case split in the solver's symbolic execution.)
+// (1) the store's IOAlloc (refill buffer)
+static uint8_t RB_guard[SRCMAX];
 static void* live_refill; static int refill_len;
 static int c17_alloc(void*, IOAlloc::RangeSize size, void** ptr)
 {
     CHECK(size.min >= 1 && size.max >= size.min && size.max <= SRCMAX, "refill buffer request is positive and no larger than the source file");
     ASSUME(size.min >= 1 && size.max >= size.min && size.max <= SRCMAX);
     CHECK(live_refill == nullptr, "harness bound: one refill buffer is live at a time");
-    PROBES(1,2,3)
-#ifdef EXPERIMENT
-    verif_probe9(size.max == 2);
-#endif
 #if FAULTS
     if (nondet_bool()) { n_fault++; *ptr = nullptr; return -1; }
 #endif
-    uint8_t* p = refill_block(size.max);
     for (int i = 0; i < SRCMAX; i++) { uint8_t x = nondet_u8(); RB[i] = x; RB_guard[i] = x; }      // fresh memory has arbitrary content
-    refill_len = size.max;
-    *ptr = p; live_refill = p; n_alloc++;
+    uint8_t* p = RB + (SRCMAX - size.max);
+    refill_len = size.max; *ptr = p; live_refill = p; n_alloc++;
     return size.max;
 }
 static int c17_dealloc(void*, void* p)
 {
     CHECK(p != nullptr && p == live_refill, "the refill buffer that was allocated is released");
-    bool guard = true;
-    for (int i = 0; i < SRCMAX; i++) if (i < SRCMAX - refill_len && RB[i] != RB_guard[i]) guard = false;
-    CHECK(guard, "nothing is written in front of the refill buffer");
     live_refill = nullptr; n_free++;
     return 0;
+}
+static bool refill_guard_intact()
+{
+    bool ok = true;
+    for (int i = 0; i < SRCMAX; i++) if (i < SRCMAX - refill_len && RB[i] != RB_guard[i]) ok = false;
+    return ok;
 }
 // (2) ::malloc / ::free (ir2c --map): IOVector::slice asks the default IOAlloc of the `input` vector for an iovec array
 static iovec TI[3];      // the block ends at the end of the array
@@ -329,7 +321,7 @@ extern "C" {
 NOINL void* verif_c17_malloc(uint64_t n)
 {
     n_malloc++;
-    CHECK(n == 16 || n == 32 || (n == 48 && NIOV >= 3), "malloc is asked for an iovec array of 1..NIOV entries");
+    CHECK(n == 16 || (n == 32 && NIOV >= 2) || (n == 48 && NIOV >= 3), "malloc is asked for an iovec array of 1..NIOV entries");
     ASSUME(n == 16 || n == 32 || n == 48);
     CHECK(live_malloc == nullptr, "harness bound: one malloc block is live at a time");
     void* p = TI + (3 - n / 16);
@@ -341,9 +333,10 @@ NOINL void verif_c17_free(void* p)
     CHECK(p != nullptr && p == live_malloc, "free() is given the live malloc block");
     live_malloc = nullptr; n_mfree++;
 }
+extern char* verif_c17_single_header;
+extern char* verif_c17_buf[8];          // rt/c17_stubs.c: payload buffers of the request (see verif_c17_memcpy_n)
 }
 
-extern "C" char* verif_c17_single_header;
 // ---- objects --------------------------------------------------------------------------------------------------------
 static Raw<SrcFile> srcS;
 static Raw<Store> storeS;
@@ -351,8 +344,8 @@ static Raw<IOAlloc> allocS;
 static Store* ST;
 
 // user buffers: one static array per (read, segment); the segment ends at the end of the array, the bytes in front are guard bytes
-static_assert(NIOV <= 3 && NREADS <= 2, "add user buffers");
-#define UBSEL(k) static uint8_t UB_##k[SEGMAX]; static inline uint8_t* ub_##k(uint64_t n) { return UB_##k + (SEGMAX - n); }
+static_assert(NIOV <= 3 && NREADS <= 2 && SEGMAX <= 8, "add user buffers");
+#define UBSEL(k) static inline uint8_t* ub_##k(uint64_t n) { return UB_##k + (SEGMAX - n); }
 UBSEL(0) UBSEL(1) UBSEL(2) UBSEL(3) UBSEL(4) UBSEL(5)
 static inline uint8_t* ubuf(int k, uint64_t n) { return k == 0 ? ub_0(n) : k == 1 ? ub_1(n) : k == 2 ? ub_2(n) : k == 3 ? ub_3(n) : k == 4 ? ub_4(n) : ub_5(n); }
 
@@ -381,9 +374,13 @@ static void world_init()
     uint8_t s = nondet_u8(); ASSUME(s >= 1 && s <= SRCMAX);
     SIZE = s;
     for (int i = 0; i < SRCMAX; i++) SRC[i] = nondet_u8();
-    // the store either knows the size (media file of the source's size exists, any subset of pages cached) or starts from an
-    // empty media file (size 0: nothing cached; the size is fetched from the source by tryget_size on the first read)
-    bool known = nondet_bool();
+    // the store either knows the size (a media file of the source's size exists, any subset of its pages cached) or starts from an
+    // empty media file (size 0, nothing cached; the size is fetched from the source by tryget_size on the first read)
+#ifdef KNOWN
+    const bool known = KNOWN;
+#else
+    const bool known = nondet_bool();
+#endif
     for (int p = 0; p < NPAGE; p++) {
         bool pr = nondet_bool();
         PRESENT[p] = known && pr && (uint64_t)p * PAGE < SIZE;
@@ -394,6 +391,19 @@ static void world_init()
     for (int i = 0; i < SRCMAX; i++) { uint8_t g = nondet_u8(); MEDIA[i] = PRESENT[i / PAGE] ? SRC[i] : g; }
     ST->setup(&srcS.v, &allocS.v, known ? (off_t)SIZE : 0);
     verif_c17_single_header = (char*)ST->lock_set_header();
+    verif_c17_buf[0] = (char*)RB; verif_c17_buf[1] = (char*)UB_0;
+#if NIOV * NREADS > 1
+    verif_c17_buf[2] = (char*)UB_1;
+#endif
+#if NIOV * NREADS > 2
+    verif_c17_buf[3] = (char*)UB_2;
+#endif
+#if NIOV * NREADS > 3
+    verif_c17_buf[4] = (char*)UB_3;
+#endif
+#if NIOV * NREADS > 4
+    verif_c17_buf[5] = (char*)UB_4; verif_c17_buf[6] = (char*)UB_5;
+#endif
 }
 
 template<int RD> static inline __attribute__((always_inline)) void one_read()
@@ -411,7 +421,7 @@ template<int RD> static inline __attribute__((always_inline)) void one_read()
         V[k].iov_base = seg[k]; V[k].iov_len = l; V0[k] = V[k];
     }
     bool pre[NPAGE]; for (int p = 0; p < NPAGE; p++) pre[p] = PRESENT[p];
-    n_fault = 0; n_src_reads = 0; n_media_reads = 0; n_media_writes = 0;
+    n_fault = 0; n_src_reads = 0; n_media_reads = 0; n_media_writes = 0; n_malloc = 0; n_mfree = 0;
 
     ssize_t r = ST->preadv2(V, NIOV, off, 0);
 
@@ -423,19 +433,23 @@ template<int RD> static inline __attribute__((always_inline)) void one_read()
     for (int k = 0; k < NIOV; k++) {
         if (!(V[k] == V0[k])) vsame = false;
         for (uint64_t i = 0; i < SEGMAX; i++) {
-            if (i >= slen[k]) break;
-            if (r >= 0 && pos < (uint64_t)r && seg[k][i] != SRC[off + pos]) same = false;
-            if (pos >= want && seg[k][i] != before[k][SEGMAX - slen[k] + i]) untouched = false;
-            pos++;
+            uint8_t now = (seg[k] + slen[k] - SEGMAX)[i];            // byte i of the whole array
+            if (i < SEGMAX - slen[k]) { if (now != before[k][i]) untouched = false; }     // guard bytes in front of the segment
+            else {
+                if (r >= 0 && pos < (uint64_t)r && now != SRC[off + pos]) same = false;
+                if (pos >= want && now != before[k][i]) untouched = false;
+                pos++;
+            }
         }
     }
     CHECK(same, "the bytes delivered are the source's bytes of the range");
-    for (int k = 0; k < NIOV; k++) for (uint64_t i = 0; i < SEGMAX; i++) if (i < SEGMAX - slen[k] && (seg[k] + slen[k] - SEGMAX)[i] != before[k][i]) untouched = false;
     CHECK(untouched, "buffer space beyond min(length, size - offset), and in front of each segment, is not written");
     CHECK(vsame, "the caller's iovec array is left unchanged");
     check_media_invariant();
     CHECK(ST->no_range_locked(), "no refill range stays locked after the read");
-    CHECK(n_alloc == n_free && live_refill == nullptr && n_malloc == n_mfree, "temporary buffers are released");
+    CHECK(n_alloc == n_free && live_refill == nullptr && n_malloc == n_mfree && live_malloc == nullptr, "temporary buffers are released");
+    CHECK(refill_guard_intact(), "nothing is written in front of the refill buffer");
+    CHECK(n_unexpected == 0, "the source file is accessed through preadv2 and fstat only");
     if (n_fault == 0 && want > 0) {
         bool filled = true;
         for (int p = 0; p < NPAGE; p++) if ((uint64_t)p * PAGE < off + want && off < (uint64_t)p * PAGE + PAGE && !PRESENT[p]) filled = false;
@@ -494,56 +508,10 @@ void harness_prefetch()
     check_media_invariant();
     CHECK(ST->no_range_locked(), "no refill range stays locked after the prefetch");
     CHECK(n_alloc == n_free && live_refill == nullptr, "temporary buffers are released");
+    CHECK(refill_guard_intact(), "nothing is written in front of the refill buffer");
+    CHECK(n_unexpected == 0, "the source file is accessed through preadv2 and fstat only");
     if (n_fault == 0 && n_src_reads == 1 && want > 4) WITNESS("prefetch refilled a multi-page range");
     if (n_fault == 0 && n_src_reads == 0 && want > 0) WITNESS("prefetch of a cached range reads nothing");
     if (o8 >= SIZE) WITNESS("prefetch beyond end of file");
 }
 }
-#ifdef EXPERIMENT
-struct PStore : public Store { bool pn() { return pool_ == nullptr; } bool sn() { return src_fs_ == nullptr; } bool sf() { return src_file_ == (IFile*)&srcS.v; } };
-static bool probe_srcfile() { return ((PStore*)&storeS.v)->sf(); }
-static bool probe_pool_null() { return ((PStore*)&storeS.v)->pn(); }
-static bool probe_srcfs_null() { return ((PStore*)&storeS.v)->sn(); }
-static Raw<Store> storeRef; static bool probe_vptr() { return *(void**)&storeS.v == *(void**)&storeRef.v; }
-static bool probe_srcfile();
-extern "C" void harness_exp()
-{
-    world_init();
-#if EXPERIMENT == 1
-    ICacheStore* s = ST;
-    auto q = s->queryRefillRange(0, 1);
-    CHECK(q.second <= 12, "exp");
-#elif EXPERIMENT == 2
-    static iovec V[1]; static uint8_t b[2];
-    V[0].iov_base = b; V[0].iov_len = 2;
-    ssize_t r = ST->preadv2(V, 1, 0, 0);
-    CHECK(r <= 2, "exp");
-#elif EXPERIMENT == 3
-    static iovec V[1]; static uint8_t b[2];
-    V[0].iov_base = b; V[0].iov_len = 2;
-    ASSUME(SIZE >= 2);
-    auto r = ST->try_preadv2(V, 1, 0, 0);
-    CHECK(r.iov_sum == 2, "exp");
-#elif EXPERIMENT == 4
-    struct stat st;
-    int r = srcS.v.fstat(&st);
-    IFile* f = &srcS.v;
-    r = f->fstat(&st);
-    CHECK(r == 0, "exp");
-#elif EXPERIMENT == 5
-    ASSUME(ST->get_actual_size() != 0);
-    new (&storeRef.v) Store;
-    static iovec V[1]; static uint8_t b[2];
-    V[0].iov_base = b; V[0].iov_len = 2;
-    ssize_t r = ST->preadv2(V, 1, 0, 0);
-    CHECK(r <= 2, "exp");
-#elif EXPERIMENT == 6
-    uint8_t n = nondet_u8(); ASSUME(n >= 1 && n <= 12);
-    static Raw<IOVector> bufS;
-    IOVector* buffer = new (&bufS.v) IOVector(allocS.v);
-    size_t r = buffer->push_back(n);
-    CHECK(r == n, "exp");
-#endif
-    WITNESS("exp");
-}
-#endif
